@@ -23,7 +23,8 @@ ASSUMPTIONS = ["labels are NUL-terminated strings by contract (no embedded NUL g
 NT_LABELS = {"multi_same_object", "rewrite_len_change", "reopen_many"}
 DL, DD, FL, FD = 0, 1, 2, 3
 ANN_TAG = {DL: 104, DD: 105, FL: 100, FD: 101}
-TARGETS = [(702, 1), (702, 2), (306, 1), (1962, 5)]
+TARGETS = [(702, 1), (702, 2), (306, 1), (1962, 5)] + [(800, i + 1) for i in range(20)]
+NT4 = 4          # the first four targets are used by every operation, the others by DFAN bursts only
 
 
 def nontrivial(labels):
@@ -51,7 +52,7 @@ def strategy_(draw, tier):
                   else st.integers(1, 60))
         if c < 45:
             t = draw(st.sampled_from([DL, DL, DD, DD, FL, FD]))
-            tgt = draw(st.integers(0, len(TARGETS) - 1))
+            tgt = draw(st.integers(0, NT4 - 1))
             ops.append(["create", t, tgt, ln, draw(st.integers(0, 99))])
             n += 1
         elif c < 65 and n:
@@ -60,15 +61,24 @@ def strategy_(draw, tier):
             ops.append(["reopen", draw(st.integers(0, 1))])      # 1: the next call in the new session is not a listing
         elif c < 82:
             ops.append(["dfan", draw(st.sampled_from(["label", "desc", "fid", "fds"])),
-                        draw(st.integers(0, len(TARGETS) - 1)), max(ln, 1) if True else ln, draw(st.integers(0, 99))])
+                        draw(st.integers(0, NT4 - 1)), max(ln, 1) if True else ln, draw(st.integers(0, 99))])
             n += 1
+            if draw(st.integers(0, 4)) == 0:
+                # a burst of single-file annotations on further objects (the single-file directory grows in
+                # nodes of 16 entries)
+                w_ = draw(st.sampled_from(["label", "desc"]))
+                for bi in range(draw(st.integers(3, 20))):
+                    ops.append(["dfan", w_, NT4 + bi, 1 + bi % 7, draw(st.integers(0, 99))])
+                    n += 1
+                ops.append(["dfanget", 0, w_, draw(st.integers(0, NT4 - 1))])
+                ops.append(["dfanget", 0, w_, NT4])
         elif c < 87:
             # the single-file interface applied to a second file in the same process
-            ops.append(["dfan2", draw(st.sampled_from(["label", "desc"])), draw(st.integers(0, len(TARGETS) - 1)),
+            ops.append(["dfan2", draw(st.sampled_from(["label", "desc"])), draw(st.integers(0, NT4 - 1)),
                         max(ln, 1), draw(st.integers(0, 99))])
         elif c < 94:
             ops.append(["dfanget", draw(st.integers(0, 1)), draw(st.sampled_from(["label", "desc"])),
-                        draw(st.integers(0, len(TARGETS) - 1))])
+                        draw(st.integers(0, NT4 - 1))])
         else:
             ops.append(["observe"])
     return {"ops": ops}
@@ -96,7 +106,7 @@ def run_case(case):
         def observe():
             for t in (DL, DD, FL, FD):
                 S("all", p.call("i", "hx_an_all", V("an"), t, Out(20 * 400), 400), t)
-            for ti, (tt, tr) in enumerate(TARGETS):
+            for ti, (tt, tr) in enumerate(TARGETS[:NT4]):
                 for t in (DL, DD):
                     S("list", p.call("i", "hx_an_list", V("an"), t, tt, tr, Out(12 * 400), 400), t, ti)
             S("fileinfo", p.call("i", "ANfileinfo", V("an"), Out(4), Out(4), Out(4), Out(4)))
